@@ -36,6 +36,9 @@ type Check struct {
 	Oracle func(res *RunResult) []Violation
 	// Exec runs a plan (default: RunPlan). Differential checks run every world of a world-set plan.
 	Exec func(p *plan.Plan) (*RunResult, error)
+	// Pinned: operations the shrinker must not drop because the oracle's expectations rest on them (the flush
+	// and clock advances that make exported spans visible before a view is read); nil = every op may go.
+	Pinned func(op *plan.Op) bool
 	// Assumptions recorded in the evidence.
 	Assumptions []string
 	Components  map[string]string
